@@ -225,4 +225,41 @@ theorem tree_sound {net : Net} (hwf : WF net) {v : STensor} (hv : dget net.tenso
   refine (prodL_perm ((isort_perm _).map _).symm).trans ?_
   congr 1
 
+/-- the strengthened root certificate: `rootOK` and, in addition, distinct legs of the root carry distinct bonds
+(decidable, Mathlib-free; `rootOK` alone is unsound for a single-leaf tree whose tensor repeats a bond) -/
+def rootOKStrong (net : Net) (tree : Tree) (axesMap : List Nat) : Bool :=
+  rootOK net tree axesMap &&
+    nodupB ((List.range tree.info.idxout.length).map (nodeLegBond net tree.info))
+
+theorem rootInj_of_nodupB {net : Net} {c : NodeInfo} (hi : InfoCert net c)
+    (h : nodupB ((List.range c.idxout.length).map (nodeLegBond net c)) = true) : RootInj net c := by
+  rw [nodupB_iff] at h
+  intro k k' hk hk' he
+  obtain ⟨oa, hm, _⟩ := hi.leg hk
+  obtain ⟨oa', hm', _⟩ := hi.leg hk'
+  have e1 := (hi.pairs _ hm).2.2
+  have e2 := (hi.pairs _ hm').2.2
+  simp only at e1 e2
+  have hkk : ((List.range c.idxout.length).map (nodeLegBond net c)).get ⟨k, by simpa using hk⟩ =
+      ((List.range c.idxout.length).map (nodeLegBond net c)).get ⟨k', by simpa using hk'⟩ := by
+    simp only [List.get_eq_getElem, List.getElem_map, List.getElem_range, e1, e2, he]
+  have := (List.Nodup.get_inj_iff h).mp hkk
+  simpa using this
+
+theorem rootOKStrong_iff {net : Net} {tree : Tree} {am : List Nat} : rootOKStrong net tree am = true ↔
+    rootOK net tree am = true ∧ nodupB ((List.range tree.info.idxout.length).map (nodeLegBond net tree.info)) = true := by
+  simp [rootOKStrong]
+
+/-- **Soundness of the strengthened certificates** `treeOKList` / `rootOKStrong` (no further hypothesis on the root) -/
+theorem tree_sound_strong {net : Net} (hwf : WF net) {v : STensor} (hv : dget net.tensors (-1) = some v)
+    (D : Option Int → List Nat → α) (dict : Int → Option (DT α)) (tree : Tree) (am : List Nat)
+    (hok : ∀ x ∈ treeOKList net tree, x = true) (hroot : rootOKStrong net tree am = true)
+    (hdata : ∀ i ∈ leafInfos tree, LeafDataOK net D dict i)
+    {r : DT α} (hr : treeEval dict tree = .ok r) (idx : List Nat)
+    (hidx : List.Forall₂ (fun i d => i < d) idx v.shape) :
+    toFullSem r am idx = full net D idx := by
+  obtain ⟨h1, h2⟩ := rootOKStrong_iff.mp hroot
+  have hI := treeInv hwf tree hok (rootOK_cert hv h1).leavesNodup
+  exact tree_sound hwf hv D dict tree am hok h1 (rootInj_of_nodupB hI.info h2) hdata hr idx hidx
+
 end Qib.TNet
